@@ -6,12 +6,15 @@ import Netpol.Proofs.Structure
 faithful on selectors with Kubernetes label syntax: two selectors with the same requirement strings
 select the same label sets. "Kubernetes label syntax" is needed only in the weak form `Selector.OK`:
 keys and values hold none of the characters the rendering uses as punctuation (space, `=`, `!`, `,`,
-`(`, `)`), and a `NotIn` requirement has at least one value. Core Lean only. -/
+`(`, `)`) nor the two separators of the map key of the representative peers (`;`, `|`), keys are not
+empty, and a `NotIn` requirement has at least one value. On such selectors the list of requirement
+strings is also recovered from its `;`-joined form (`intercalate_reqStrings_inj`). Core Lean only. -/
 namespace Netpol
 namespace SelStr
 
 /-- a character that the rendering of a requirement does not use as punctuation -/
-def okc (c : Char) : Prop := c ≠ ' ' ∧ c ≠ '=' ∧ c ≠ '!' ∧ c ≠ ',' ∧ c ≠ '(' ∧ c ≠ ')'
+def okc (c : Char) : Prop :=
+  c ≠ ' ' ∧ c ≠ '=' ∧ c ≠ '!' ∧ c ≠ ',' ∧ c ≠ '(' ∧ c ≠ ')' ∧ c ≠ ';' ∧ c ≠ '|'
 
 instance : DecidablePred okc := fun c => by unfold okc; infer_instance
 
@@ -55,7 +58,10 @@ theorem join_cons_cons (a b : List Char) (l : List (List Char)) :
 theorem okl_no {l : List Char} (h : okl l) :
     ' ' ∉ l ∧ '=' ∉ l ∧ '!' ∉ l ∧ ',' ∉ l ∧ '(' ∉ l ∧ ')' ∉ l :=
   ⟨fun m => (h _ m).1 rfl, fun m => (h _ m).2.1 rfl, fun m => (h _ m).2.2.1 rfl,
-   fun m => (h _ m).2.2.2.1 rfl, fun m => (h _ m).2.2.2.2.1 rfl, fun m => (h _ m).2.2.2.2.2 rfl⟩
+   fun m => (h _ m).2.2.2.1 rfl, fun m => (h _ m).2.2.2.2.1 rfl, fun m => (h _ m).2.2.2.2.2.1 rfl⟩
+
+theorem okl_no2 {l : List Char} (h : okl l) : ';' ∉ l ∧ '|' ∉ l :=
+  ⟨fun m => (h _ m).2.2.2.2.2.2.1 rfl, fun m => (h _ m).2.2.2.2.2.2.2 rfl⟩
 
 /-- on non-empty lists of comma-free items -/
 theorem join_inj_ne (A B : List (List Char)) (hA : ∀ v ∈ A, okl v) (hB : ∀ v ∈ B, okl v)
@@ -412,18 +418,18 @@ theorem label_sem (k v : String) (l : Labels) :
 
 /-- a requirement with label syntax -/
 def _root_.Netpol.Req.OK (r : Req) : Prop :=
-  okl r.key.toList ∧ (∀ v ∈ r.vals, okl v.toList) ∧ (r.op = .NotIn → r.vals ≠ [])
+  okl r.key.toList ∧ (∀ v ∈ r.vals, okl v.toList) ∧ (r.op = .NotIn → r.vals ≠ []) ∧ r.key ≠ ""
 
 instance (r : Req) : Decidable r.OK := by unfold Req.OK; infer_instance
 
 /-- a selector with label syntax -/
 def _root_.Netpol.Selector.OK (s : Selector) : Prop :=
-  (∀ kv ∈ s.matchLabels, okl kv.1.toList ∧ okl kv.2.toList) ∧ ∀ r ∈ s.exprs, r.OK
+  (∀ kv ∈ s.matchLabels, okl kv.1.toList ∧ okl kv.2.toList ∧ kv.1 ≠ "") ∧ ∀ r ∈ s.exprs, r.OK
 
 instance (s : Selector) : Decidable s.OK := by unfold Selector.OK; infer_instance
 
 theorem nf_ok (r : Req) (h : r.OK) : (nf r).ok := by
-  obtain ⟨hk, hv, hne⟩ := h
+  obtain ⟨hk, hv, hne, _⟩ := h
   have hperm := List.mergeSort_perm r.vals (· ≤ ·)
   have hvs : ∀ v ∈ (r.vals.mergeSort (· ≤ ·)).map String.toList, okl v := by
     intro v hm
@@ -492,7 +498,7 @@ theorem itemNFs_ok (s : Selector) (h : s.OK) : ∀ a ∈ itemNFs s, a.ok := by
   intro a ha
   rcases List.mem_append.mp ha with h1 | h1
   · obtain ⟨kv, hkv, rfl⟩ := List.mem_map.mp h1
-    exact h.1 kv hkv
+    exact ⟨(h.1 kv hkv).1, (h.1 kv hkv).2.1⟩
   · obtain ⟨r, hr, rfl⟩ := List.mem_map.mp h1
     exact nf_ok r (h.2 r hr)
 
@@ -532,6 +538,251 @@ theorem reqStrings_faithful (s t : Selector) (hs : s.OK) (ht : t.OK)
     exact hall a (itemNFs_sub ht hs (fun x hx => h ▸ hx) a ha)
   · intro hall a ha
     exact hall a (itemNFs_sub hs ht (fun x hx => h ▸ hx) a ha)
+
+/-! ### the `;`-joined requirement strings (the map key of the representative peers) -/
+
+/-- joining with a separator character -/
+def ijoin (sep : Char) (vs : List (List Char)) : List Char := [sep].intercalate vs
+
+theorem ijoin_nil (sep : Char) : ijoin sep [] = [] := rfl
+theorem ijoin_single (sep : Char) (a : List Char) : ijoin sep [a] = a := by
+  simp [ijoin, List.intercalate]
+theorem ijoin_cons_cons (sep : Char) (a b : List Char) (l : List (List Char)) :
+    ijoin sep (a :: b :: l) = a ++ sep :: ijoin sep (b :: l) := by
+  simp [ijoin, List.intercalate, List.intersperse]
+
+theorem join_eq_ijoin (vs : List (List Char)) : join vs = ijoin ',' vs := rfl
+
+theorem mem_ijoin {sep c : Char} {vs : List (List Char)} (h : c ∈ ijoin sep vs) :
+    c = sep ∨ ∃ v ∈ vs, c ∈ v := by
+  induction vs with
+  | nil => cases h
+  | cons a as ih =>
+    cases as with
+    | nil =>
+      rw [ijoin_single] at h
+      exact Or.inr ⟨a, List.mem_cons_self .., h⟩
+    | cons b bs =>
+      rw [ijoin_cons_cons] at h
+      rcases List.mem_append.mp h with h1 | h1
+      · exact Or.inr ⟨a, List.mem_cons_self .., h1⟩
+      · rcases List.mem_cons.mp h1 with h2 | h2
+        · exact Or.inl h2
+        · rcases ih h2 with h3 | ⟨v, hv, h3⟩
+          · exact Or.inl h3
+          · exact Or.inr ⟨v, List.mem_cons_of_mem _ hv, h3⟩
+
+theorem ijoin_inj_ne (sep : Char) (A B : List (List Char)) (hA : ∀ v ∈ A, sep ∉ v)
+    (hB : ∀ v ∈ B, sep ∉ v) (nA : A ≠ []) (nB : B ≠ []) (h : ijoin sep A = ijoin sep B) : A = B := by
+  induction A generalizing B with
+  | nil => exact absurd rfl nA
+  | cons a as ih =>
+    cases B with
+    | nil => exact absurd rfl nB
+    | cons b bs =>
+      have ha := hA a (List.mem_cons_self ..)
+      have hb := hB b (List.mem_cons_self ..)
+      cases as with
+      | nil =>
+        cases bs with
+        | nil => rw [ijoin_single, ijoin_single] at h; rw [h]
+        | cons b2 bs' =>
+          rw [ijoin_single, ijoin_cons_cons] at h
+          exfalso
+          apply ha
+          rw [h]
+          exact List.mem_append_right _ (List.mem_cons_self ..)
+      | cons a2 as' =>
+        cases bs with
+        | nil =>
+          rw [ijoin_single, ijoin_cons_cons] at h
+          exfalso
+          apply hb
+          rw [← h]
+          exact List.mem_append_right _ (List.mem_cons_self ..)
+        | cons b2 bs' =>
+          rw [ijoin_cons_cons, ijoin_cons_cons] at h
+          obtain ⟨h1, h2⟩ := Structure.split_unique ha hb h
+          rw [h1, ih (b2 :: bs') (fun v hv => hA v (List.mem_cons_of_mem _ hv))
+            (fun v hv => hB v (List.mem_cons_of_mem _ hv)) (by simp) (by simp) h2]
+
+theorem ijoin_ne_nil (sep : Char) (a : List Char) (l : List (List Char)) (ha : a ≠ []) :
+    ijoin sep (a :: l) ≠ [] := by
+  cases l with
+  | nil => rw [ijoin_single]; exact ha
+  | cons b bs =>
+    rw [ijoin_cons_cons]
+    intro h
+    exact ha (List.append_eq_nil_iff.mp h).1
+
+/-- joining is injective on lists of non-empty items that do not hold the separator -/
+theorem ijoin_inj (sep : Char) (A B : List (List Char)) (hA : ∀ v ∈ A, sep ∉ v ∧ v ≠ [])
+    (hB : ∀ v ∈ B, sep ∉ v ∧ v ≠ []) (h : ijoin sep A = ijoin sep B) : A = B := by
+  cases A with
+  | nil =>
+    cases B with
+    | nil => rfl
+    | cons b bs => exact absurd h.symm (ijoin_ne_nil sep b bs (hB b (List.mem_cons_self ..)).2)
+  | cons a as =>
+    cases B with
+    | nil => exact absurd h (ijoin_ne_nil sep a as (hA a (List.mem_cons_self ..)).2)
+    | cons b bs =>
+      exact ijoin_inj_ne sep _ _ (fun v hv => (hA v hv).1) (fun v hv => (hB v hv).1) (by simp)
+        (by simp) h
+
+/-- the characters the rendering adds -/
+def punct : List Char := [' ', '=', '!', ',', '(', ')', 'i', 'n', 'o', 't']
+
+theorem okl_mem_vs {vs : List (List Char)} (h : ∀ v ∈ vs, okl v) {c : Char} (hc : c ∈ join vs) :
+    c ∈ punct ∨ okc c := by
+  rw [join_eq_ijoin] at hc
+  rcases mem_ijoin hc with h1 | ⟨v, hv, h1⟩
+  · subst h1; exact Or.inl (by decide)
+  · exact Or.inr (h v hv c h1)
+
+/-- a rendered requirement holds punctuation and characters of its keys and values only -/
+theorem render_chars {a : NF} (ha : a.ok) {c : Char} (hc : c ∈ render a) : c ∈ punct ∨ okc c := by
+  cases a with
+  | eq k v =>
+    simp only [render, List.mem_append, List.mem_cons] at hc
+    rcases hc with h | h | h
+    · exact Or.inr (ha.1 c h)
+    · subst h; exact Or.inl (by decide)
+    · exact Or.inr (ha.2 c h)
+  | inn k vs =>
+    simp only [render, List.mem_append, List.mem_cons, List.not_mem_nil, or_false] at hc
+    rcases hc with h | h | h | h | h | h | h | h
+    · exact Or.inr (ha.1 c h)
+    · subst h; exact Or.inl (by decide)
+    · subst h; exact Or.inl (by decide)
+    · subst h; exact Or.inl (by decide)
+    · subst h; exact Or.inl (by decide)
+    · subst h; exact Or.inl (by decide)
+    · exact okl_mem_vs ha.2.1 h
+    · subst h; exact Or.inl (by decide)
+  | notin k vs =>
+    simp only [render, List.mem_append, List.mem_cons, List.not_mem_nil, or_false] at hc
+    rcases hc with h | h | h | h | h | h | h | h | h | h | h
+    · exact Or.inr (ha.1 c h)
+    · subst h; exact Or.inl (by decide)
+    · subst h; exact Or.inl (by decide)
+    · subst h; exact Or.inl (by decide)
+    · subst h; exact Or.inl (by decide)
+    · subst h; exact Or.inl (by decide)
+    · subst h; exact Or.inl (by decide)
+    · subst h; exact Or.inl (by decide)
+    · subst h; exact Or.inl (by decide)
+    · exact okl_mem_vs ha.2.1 h
+    · subst h; exact Or.inl (by decide)
+  | ex k => exact Or.inr (ha c hc)
+  | dne k =>
+    simp only [render, List.mem_cons] at hc
+    rcases hc with h | h
+    · subst h; exact Or.inl (by decide)
+    · exact Or.inr (ha c h)
+
+theorem render_no_sep {a : NF} (ha : a.ok) : ';' ∉ render a ∧ '|' ∉ render a := by
+  constructor
+  · intro h
+    rcases render_chars ha h with h1 | h1
+    · revert h1; decide
+    · exact h1.2.2.2.2.2.2.1 rfl
+  · intro h
+    rcases render_chars ha h with h1 | h1
+    · revert h1; decide
+    · exact h1.2.2.2.2.2.2.2 rfl
+
+/-- the key of an `Exists` requirement is not empty (the other shapes are never rendered empty) -/
+def NF.ne : NF → Prop
+  | .ex k => k ≠ []
+  | _ => True
+
+theorem render_ne_nil {a : NF} (ha : a.ne) : render a ≠ [] := by
+  cases a with
+  | eq k v => simp [render]
+  | inn k vs => simp [render]
+  | notin k vs => simp [render]
+  | ex k => exact ha
+  | dne k => simp [render]
+
+theorem toList_ne_nil {s : String} (h : s ≠ "") : s.toList ≠ [] := by
+  intro h0
+  apply h
+  apply String.toList_inj.mp
+  rw [h0]
+  rfl
+
+theorem nf_ne (r : Req) (h : r.key ≠ "") : (nf r).ne := by
+  unfold nf
+  cases r.op with
+  | In => simp only []; split <;> trivial
+  | NotIn => trivial
+  | Exists => exact toList_ne_nil h
+  | DoesNotExist => trivial
+
+theorem itemNFs_ne (s : Selector) (h : s.OK) : ∀ a ∈ itemNFs s, a.ne := by
+  intro a ha
+  rcases List.mem_append.mp ha with h1 | h1
+  · obtain ⟨kv, _, rfl⟩ := List.mem_map.mp h1
+    trivial
+  · obtain ⟨r, hr, rfl⟩ := List.mem_map.mp h1
+    exact nf_ne r (h.2 r hr).2.2.2
+
+/-- a requirement string of a selector with label syntax: not empty, and without the separators -/
+theorem reqStrings_item (s : Selector) (hs : s.OK) {x : String} (hx : x ∈ s.reqStrings) :
+    ';' ∉ x.toList ∧ '|' ∉ x.toList ∧ x.toList ≠ [] := by
+  obtain ⟨a, ha, hxa⟩ := mem_strsOf_nf s ((reqStrings_perm s).mem_iff.mp hx)
+  rw [hxa]
+  obtain ⟨h1, h2⟩ := render_no_sep (itemNFs_ok s hs a ha)
+  exact ⟨h1, h2, render_ne_nil (itemNFs_ne s hs a ha)⟩
+
+theorem toList_intercalate_semicolon (l : List String) :
+    (";".intercalate l).toList = ijoin ';' (l.map String.toList) := by
+  rw [String.toList_intercalate]
+  rfl
+
+/-- the list of requirement strings is recovered from its `;`-joined form -/
+theorem intercalate_reqStrings_inj (s t : Selector) (hs : s.OK) (ht : t.OK)
+    (h : ";".intercalate s.reqStrings = ";".intercalate t.reqStrings) :
+    s.reqStrings = t.reqStrings := by
+  have h' := congrArg String.toList h
+  rw [toList_intercalate_semicolon, toList_intercalate_semicolon] at h'
+  have := ijoin_inj ';' _ _
+    (fun v hv => by
+      obtain ⟨x, hx, rfl⟩ := List.mem_map.mp hv
+      exact ⟨(reqStrings_item s hs hx).1, (reqStrings_item s hs hx).2.2⟩)
+    (fun v hv => by
+      obtain ⟨x, hx, rfl⟩ := List.mem_map.mp hv
+      exact ⟨(reqStrings_item t ht hx).1, (reqStrings_item t ht hx).2.2⟩) h'
+  have h2 := congrArg (List.map String.ofList) this
+  rw [map_ofList_toList, map_ofList_toList] at h2
+  exact h2
+
+/-- the `;`-joined form does not hold the separator `|` of the pair key -/
+theorem intercalate_reqStrings_no_bar (s : Selector) (hs : s.OK) :
+    '|' ∉ (";".intercalate s.reqStrings).toList := by
+  rw [toList_intercalate_semicolon]
+  intro h
+  rcases mem_ijoin h with h1 | ⟨v, hv, h1⟩
+  · cases h1
+  · obtain ⟨x, hx, rfl⟩ := List.mem_map.mp hv
+    exact (reqStrings_item s hs hx).2.1 h1
+
+/-- a selector is empty iff it has no requirement string -/
+theorem reqStrings_eq_nil_iff (s : Selector) : s.reqStrings = [] ↔ s.isEmpty = true := by
+  have hl : s.reqStrings.length = s.matchLabels.length + s.exprs.length := by
+    rw [(reqStrings_perm s).length_eq]
+    simp [strsOf]
+  unfold Selector.isEmpty
+  rw [Bool.and_eq_true, List.isEmpty_iff, List.isEmpty_iff]
+  constructor
+  · intro h
+    rw [h] at hl
+    simp only [List.length_nil] at hl
+    exact ⟨List.length_eq_zero_iff.mp (by omega), List.length_eq_zero_iff.mp (by omega)⟩
+  · rintro ⟨h1, h2⟩
+    rw [h1, h2] at hl
+    exact List.length_eq_zero_iff.mp hl
 
 end SelStr
 end Netpol
